@@ -1,4 +1,5 @@
 import NbioVerif.Model.Ws
+import NbioVerif.Lemmas.WsRoundTrip
 /-!
 # The bounded send queue of asynchronous `WriteMessage`: all the frames of a message or none
 
@@ -128,5 +129,45 @@ def sqEnv : Env := { keyAt := fun _ => [0, 0, 0, 0], deflate := fun x => 0 :: x,
 
 theorem precompress_count_breaks_stream :
     (appWriteQPre sqCfg sqEnv {} 1 0 2 [7, 7]).err = some .queueFull ∧ (appWriteQPre sqCfg sqEnv {} 1 0 2 [7, 7]).wrote ≠ [] := by decide
+
+/-- a batch of `WriteMessage` calls through the send queue while nothing drains it (the gated sender of the `sendq=` cases):
+    the bytes handed to the conn writer, and the messages that were accepted -/
+def appWritesQ (g : Cfg) (e : Env) (size : Nat) : K → Nat → List (Nat × Bytes) → Bytes × List (Nat × Bytes)
+  | _, _, [] => ([], [])
+  | k, q, (op, x) :: ms =>
+    ((appWriteQ g e k size q op x).wrote.flatten
+        ++ (appWritesQ g e size (appWriteQ g e k size q op x).k (appWriteQ g e k size q op x).qlen ms).1,
+     if (appWriteQ g e k size q op x).err.isNone
+       then (op, x) :: (appWritesQ g e size (appWriteQ g e k size q op x).k (appWriteQ g e k size q op x).qlen ms).2
+       else (appWritesQ g e size (appWriteQ g e k size q op x).k (appWriteQ g e k size q op x).qlen ms).2)
+
+/-- the wire of a batch with refusals is the wire of its accepted messages written directly, in the same order; the accepted
+    messages are among the batch -/
+theorem appWritesQ_eq (g : Cfg) (e : Env) (size : Nat) (hmf : g.maxFrame > 0) : ∀ (ms : List (Nat × Bytes)) (k : K) (q : Nat),
+    (appWritesQ g e size k q ms).1 = appWrites g e k (appWritesQ g e size k q ms).2 ∧
+    (∀ m ∈ (appWritesQ g e size k q ms).2, m ∈ ms) := by
+  intro ms
+  induction ms with
+  | nil => intro k q; simp [appWritesQ, appWrites]
+  | cons m ms ih =>
+    intro k q
+    obtain ⟨op, x⟩ := m
+    unfold appWritesQ
+    rcases appWriteQ_all_or_nothing g e k size q op x hmf with ⟨he, haw, _, _⟩ | ⟨he, hw, hk, hq⟩
+    · obtain ⟨ih1, ih2⟩ := ih (appWriteQ g e k size q op x).k (appWriteQ g e k size q op x).qlen
+      simp only [he, Option.isNone_none, if_true]
+      constructor
+      · simp only [appWrites, haw]; rw [ih1]
+      · intro m hm
+        cases hm with
+        | head => exact List.mem_cons_self
+        | tail _ h => exact List.mem_cons_of_mem _ (ih2 m h)
+    · obtain ⟨ih1, ih2⟩ := ih k q
+      have hn : (appWriteQ g e k size q op x).err.isNone = false := by
+        cases h : (appWriteQ g e k size q op x).err with
+        | none => exact absurd h he
+        | some _ => rfl
+      simp only [hn, Bool.false_eq_true, if_false, hw, hk, hq, List.flatten_nil, List.nil_append]
+      exact ⟨ih1, fun m hm => List.mem_cons_of_mem _ (ih2 m hm)⟩
 
 end Ws
